@@ -102,6 +102,9 @@ func (c c20) Generate(seed uint64, tier string, idx int) *core.Plan {
 			add(m)
 		}
 		add(append(append([]byte(nil), n...), 'x'))
+		add(append(append([]byte(nil), n...), []byte(":8443")...))
+		add(append([]byte("login."), n...))
+		add(append([]byte("."), n...))
 		add(append(append([]byte(nil), n...), 0x01))
 		add(append(append([]byte(nil), n...), ' '))
 	}
